@@ -310,6 +310,13 @@ type Frame struct {
 	depth    int
 	isUnit   bool
 	rangeIts map[ssa.Value]*MapIterV
+	dbg      map[string]dbgVar
+}
+
+type dbgVar struct {
+	v      SVal
+	t      types.Type
+	isAddr bool
 }
 
 func (f *Frame) clone() *Frame {
@@ -319,6 +326,12 @@ func (f *Frame) clone() *Frame {
 		n.vals[k] = v
 	}
 	n.defers = append([]deferred(nil), f.defers...)
+	if f.dbg != nil {
+		n.dbg = make(map[string]dbgVar, len(f.dbg))
+		for k, v := range f.dbg {
+			n.dbg[k] = v
+		}
+	}
 	return &n
 }
 
